@@ -340,7 +340,9 @@ OpOK(op, a, r) ==
   [] op \in ParseOps -> r[1] \in {0, 1}
   (* ---- serialization (C15) ---- *)
   [] op \in {"D.json", "T.json", "TS.json", "YM.json", "DT.json", "OD.json"} ->
-        LET ty == TypeOfJsonOp(op) IN r = RenderTokens(Lex(FixedPic(ty)), ty, a[1])
+        \* <<the text written, what that text deserializes to>>: the fixed layout, and the value again
+        LET ty == TypeOfJsonOp(op)  e == RenderTokens(Lex(FixedPic(ty)), ty, a[1]) IN
+        e[1] = 0 /\ r[1] = 0 /\ r[2][1] = e[2] /\ r[2][2] = <<0, a[1]>>
   [] op \in {"D.bin", "T.bin", "TS.bin", "YM.bin", "DT.bin", "OD.bin"} ->
         LET ty == TypeOfBinOp(op) IN
         r[1] = 0 /\ r[2] = <<IF ty \in {"D", "YM"} THEN 4 ELSE 8, RawOf(ty, a[1]), <<0, a[1]>> >>
